@@ -385,3 +385,46 @@ def _run_if(x, env):
                 env.m[h] = tmax(l, r)
                 return
     _havoc_assigned(x, env)
+
+
+def show_stable(t, name=lambda hid, nm: nm):
+    """rendering that does not depend on HIR ids or on the order in which monomials were created: atoms and monomials are
+    rendered first and sorted as strings; opaque atoms all read `<?>`; `name(hid, nm)` renders a local"""
+    if t is TOP:
+        return "?"
+    if not t:
+        return "0"
+
+    def place(p):
+        if isinstance(p, str):
+            return p
+        if isinstance(p, tuple) and len(p) == 2 and isinstance(p[0], int):
+            return name(p[0], str(p[1]))
+        if isinstance(p, tuple) and len(p) == 2 and isinstance(p[1], str) and p[1][:1] in (".", "["):
+            return place(p[0]) + p[1]
+        try:
+            return show_stable(dict(p), name)
+        except (TypeError, ValueError):
+            return "<?>"
+
+    def atom_s(a):
+        k = a[0]
+        if k == "sym":
+            return place(a[1])
+        if k in ("min", "max"):
+            xs = sorted(show_stable(dict(x), name) if x != ("TOP",) else "?" for x in a[1:3])
+            return "%s(%s, %s)" % (k, xs[0], xs[1])
+        if k in ("div", "shr"):
+            return "(%s %s %s)" % (show_stable(dict(a[1]), name), "/" if k == "div" else ">>", a[2])
+        if k == "len":
+            return "len(%s)" % place(a[1])
+        if k == "fn":
+            return "%s(%s)" % (a[1], ", ".join(place(x) for x in a[2:]))
+        return "<?>"
+    parts = []
+    for m, c in t.items():
+        if c == 0:
+            continue
+        ms = "*".join(sorted(atom_s(a) for a in m))
+        parts.append(str(c) if not m else (ms if c == 1 else "%d*%s" % (c, ms)))
+    return " + ".join(sorted(parts))
